@@ -49,6 +49,7 @@ type Conc struct {
 	K    int    `json:"k,omitempty"`
 	M    int    `json:"m,omitempty"`
 	N    int    `json:"n,omitempty"`
+	R    int    `json:"r,omitempty"` // rounds
 }
 
 type Case struct {
@@ -156,7 +157,12 @@ func coqTree(kind string, t *Tree) string {
 	case "join":
 		c := map[string]string{"worker": "FJoinW", "processor": "FJoinW", "operation": "FJoinO", "handler": "FJoinH",
 			"future": "FJoinF", "producer": "FJoinP", "func": "FJoinH"}[kind]
-		return fmt.Sprintf("(%s %s %s)", c, coqTree(kind, t.Kids[0]), coqTree(kind, t.Kids[1]))
+		// wf.Join(a, b, c) folds merge from the left: ((wf.merge(a)).merge(b)).merge(c)
+		out := coqTree(kind, t.Kids[0])
+		for _, k := range t.Kids[1:] {
+			out = fmt.Sprintf("(%s %s %s)", c, out, coqTree(kind, k))
+		}
+		return out
 	case "pre", "post":
 		hk := hookKind(kind, t.W)
 		var c string
@@ -362,6 +368,12 @@ func (g *gen) wrap(kind, w string, noskip bool, sub func(kind string, noskip boo
 			t.Impl = "reduce"
 		}
 		t.Kids = []*Tree{sub(kind, ns), sub(kind, ns)}
+		// the variadic forms: Worker/Operation/Processor.Join(...), Future.Join(merge, ...), Handler.Chain(...)
+		if kind != "producer" && t.Impl != "reduce" && (kind != "handler" || t.Impl == "chain") {
+			for extra := r.Intn(3); extra > 0; extra-- {
+				t.Kids = append(t.Kids, sub(kind, ns))
+			}
+		}
 	case "pre", "post":
 		hk := hookKind(kind, w)
 		var hook *Tree
@@ -539,6 +551,26 @@ func main() {
 			for i := 0; i < reps; i++ {
 				g := &gen{r: run.Rand.Fork()}
 				add(Case{Kind: kind, Tree: g.stack(kind, ws), Calls: g.r.Intn(9)})
+			}
+		}
+	}
+
+	// ---- Join of m >= 3 parts, the context cancelled DURING part i, for every i and every function type that has a variadic Join
+	for _, kind := range []string{"worker", "operation", "processor", "handler", "future"} {
+		for m := 3; m <= 5; m++ {
+			for i := 0; i < m; i++ {
+				t := &Tree{W: "join"}
+				if kind == "handler" {
+					t.Impl = "chain"
+				}
+				for j := 0; j < m; j++ {
+					b := &Tree{W: "base", ID: j + 1, Script: []Out{{K: "ok", V: int64(j + 1)}, {K: "ok", V: int64(j + 1)}}}
+					if j == i {
+						b.Script[0] = Out{K: "cancel", V: int64(j + 1)}
+					}
+					t.Kids = append(t.Kids, b)
+				}
+				add(Case{Kind: kind, Tree: t, Calls: 2})
 			}
 		}
 	}
